@@ -209,6 +209,8 @@ type Actor struct {
 	keepRaw   bool
 	// sendTogether: consecutive pipelined commands leave in ONE write
 	sendTogether bool
+	// rawOnly: replies are not parsed, only collected in rawIn
+	rawOnly bool
 }
 
 func (s *Sim) addActor(node *Node, from simAddr, prog []Cmd) *Actor {
@@ -347,6 +349,9 @@ func (a *Actor) onData(b []byte) {
 	s := a.sim
 	if a.keepRaw {
 		a.rawIn = append(a.rawIn, b...)
+	}
+	if a.rawOnly {
+		return
 	}
 	a.rbuf = append(a.rbuf, b...)
 	for len(a.rbuf) > 0 {
